@@ -59,6 +59,10 @@ def build(case):
         F[:, 0] = 0
     d0 = rng.integers(-3, 4, n).astype(float) * case["icscale"]
     v0 = rng.integers(-3, 4, n).astype(float) * case["icscale"] / h
+    if case.get("icform") == "only_d0":
+        v0[:] = 0.0
+    elif case.get("icform") == "only_v0":
+        d0[:] = 0.0
     Bm = np.diag(b)
     if (case["form"] == "nonprop" or case.get("physnonprop")) and len(el) >= 2:
         # SPD perturbation of the damping on the elastic block only
@@ -227,6 +231,18 @@ def oracle(case, R):
             rb_in = []
     if "F_call" not in locals():
         F_call = F_in
+    # equivalent ways of stating the initial conditions: None ("zero ic's are used") or an explicit zero vector,
+    # one of the two left out when it is zero
+    icf = case.get("icform", "asis")
+    if ic == "zero" and icf in ("zeros_d0", "zeros_both"):
+        d0_in = np.zeros(n)
+    if ic == "zero" and icf in ("zeros_v0", "zeros_both"):
+        v0_in = np.zeros(n)
+    if ic == "random" and icf == "only_d0":
+        v0_in = None
+    if ic == "random" and icf == "only_v0":
+        d0_in = None
+    R.label("icform:" + (icf if ic != "static" else "static"))
     pre_eig = bool(case.get("pre_eig"))
     dphys, vphys, aphys = tr(dref), tr(vref), tr(aref)
     sc_d = max(np.abs(dphys).max(), 1e-300)
@@ -274,6 +290,11 @@ def oracle(case, R):
         sc_v = max(sc_v, T * term_a)
         sc_d = max(sc_d, T * T * term_a)
 
+    whmax = max([md.get("wh", 0.0) for md in case["modes"]] + [1.0])
+    nat0 = (np.abs(d0r).max() + h * np.abs(v0r).max()
+            + h * h * np.abs(F / np.where(S["m"] > 0, S["m"], 1.0)[:, None]).max())
+    nat_in = {"d": nat0 * kapPhi, "v": nat0 * whmax / h * kapPhi, "a": nat0 * (whmax / h) ** 2 * kapPhi}
+
     def compare(sol, name, kap, extra_rel=0.0):
         # documented: "t : Time vector: np.arange(d.shape[1])*h" (one time stamp per column, exactly these)
         if hasattr(sol, "t"):
@@ -291,8 +312,11 @@ def oracle(case, R):
             # noise floor CTOL for well-conditioned cases; the graded part (kappa >> 1) is measured
             # to stay below ~10*kappa*eps*nt, so it gets the smaller constant CKAP
             cfac = (CTOL + CKAP * (kap - 1.0)) * (10.0 if form == "physical" else 1.0)
-            tol = cfac * EPS * nt * kapPhi + 3 * extra_rel
-            R.metric(f"{name}_{q}/(eps*nt*kappa)", (e - 3 * extra_rel) / (EPS * nt * kap * kapPhi))
+            # the model error (critical-damping switch, documented rigid-body damping cut-offs) is relative to the
+            # magnitude of what goes in - initial state and force - not to a response that may nearly cancel
+            mrel = extra_rel * max(1.0, nat_in[q] / sc) if extra_rel else 0.0
+            tol = cfac * EPS * nt * kapPhi + 3 * mrel
+            R.metric(f"{name}_{q}/(eps*nt*kappa)", (e - 3 * mrel) / (EPS * nt * kap * kapPhi))
             R.check(e <= tol, f"{name}_{q}",
                     f"form={form} order={order} regs={[m_['reg'] for m_ in case['modes']]} relerr={e:.3e} "
                     f"tol={tol:.3e} kappa={kap:.3g} kapPhi={kapPhi:.3g} model={extra_rel:.2e}")
@@ -477,7 +501,7 @@ def cases(draw, form):
     has_rf = any(md["reg"] == "rf" for md in modes)
     pre_eig = (form == "physical") and (has_rb or has_rf or draw(st.booleans()))
     ic = draw(st.sampled_from(["zero", "random", "random", "static"]))
-    fscale = draw(st.sampled_from([1.0, 1e-3, 1e3, 1.0, 0.0]))
+    fscale = draw(st.sampled_from([1.0, 1e-3, 1e3, 1.0, 0.0, 1e-10, 1e9]))
     if has_slow and ic == "static":
         ic = "random"
     if has_slow and draw(st.booleans()):
@@ -485,6 +509,7 @@ def cases(draw, form):
     if fscale == 0.0:
         ic = "random"
     return {"ppack": draw(st.sampled_from(util.PART_FORMS)),
+            "icform": draw(st.sampled_from(["asis", "asis", "zeros_d0", "zeros_v0", "zeros_both", "only_d0", "only_v0"])),
             "form": form, "h": h, "modes": modes, "nt": draw(st.integers(2, 40)),
             "order": draw(st.sampled_from([0, 1])), "seed": draw(st.integers(0, 2 ** 31)),
             "mform": mform, "rb_given": rb_given, "perm": draw(st.booleans()),
@@ -519,6 +544,36 @@ def enum_rbd(shard, nshards, tier):
                             yield case
                         k += 1
 
+
+def enum_nt(shard, nshards, tier):
+    """every history length 2..24 x order x the three model forms (physical with and without the modal
+    pre-transformation) x rb / rf present: nothing may depend on the number of samples"""
+    k = 0
+    for form in ("diag", "nonprop", "physical"):
+        for nt in range(2, 25):
+            for order in (0, 1):
+                for extra in ("none", "rb", "rf"):
+                    modes = [{"reg": "under", "m": 1.0, "wh": 0.3, "zeta": 0.02},
+                             {"reg": "over", "m": 2.0 if form != "physical" else 1.0, "wh": 0.9, "zeta": 1.6},
+                             {"reg": "under", "m": 1.0, "wh": 2.1, "zeta": 0.1}]
+                    if extra == "rb":
+                        modes.insert(1, {"reg": "rb", "m": 1.0})
+                    elif extra == "rf":
+                        modes.append({"reg": "rf", "m": 1.0, "wh": 40.0, "zeta": 0.05})
+                    case = {"form": form, "h": 0.05, "modes": modes, "nt": nt, "order": order, "seed": 5000 + k,
+                            "mform": "mat" if form == "physical" else ["vec", "mat", "none"][k % 3],
+                            "rb_given": form != "physical" and bool(k % 2), "perm": False, "bvec": bool(k % 2),
+                            "kvec": bool((k // 2) % 2),
+                            "pre_eig": form == "physical" and (extra != "none" or bool(k % 2)),
+                            "ic": ["zero", "random", "static"][k % 3], "fscale": 1.0, "icscale": 1.0,
+                            "f0zero": False, "cpl": 0.3, "physnonprop": form == "physical" and bool((k // 3) % 2),
+                            "fpack": "same", "reuse": False, "ppack": "list"}
+                    if case["mform"] == "none":
+                        for md in modes:
+                            md["m"] = 1.0
+                    if k % nshards == shard:
+                        yield case
+                    k += 1
 
 
 # ---------------------------------------------------------------------------------------------------------
@@ -642,6 +697,7 @@ def first_order_cases(draw):
 
 PARTS = [
     Part("rbd_grid", oracle, enum=enum_rbd, quick=(4, None), thorough=(4, None), exhaustive=True),
+    Part("nt_grid", oracle, enum=enum_nt, quick=(4, None), thorough=(4, None), exhaustive=True),
     Part("diag", oracle, strategy=lambda: cases("diag"), quick=(8, 120), thorough=(16, 2500)),
     Part("nonprop", oracle, strategy=lambda: cases("nonprop"), quick=(8, 80), thorough=(16, 1000)),
     Part("physical", oracle, strategy=lambda: cases("physical"), quick=(8, 80), thorough=(16, 1000)),
